@@ -99,8 +99,8 @@ TIE = {
 # analyser as ancestors of whichever module the file system lists first); a parameter whose meaning depends on type checker settings
 ORD = {
     "__init__.py": "from .alpha import Thing\n",
-    "alpha/__init__.py": "class Thing:\n    def run(self) -> int:\n        ...\n",
-    "alpha/amod.py": "def fa() -> int:\n    ...\n",
+    "alpha/__init__.py": "class Thing:\n    \"\"\"Thing doc.\"\"\"\n\n    def run(self) -> int:\n        \"\"\"Run doc.\"\"\"\n",
+    "alpha/amod.py": "def fa() -> int:\n    \"\"\"Fa doc.\n\n    Returns\n    -------\n    total : int\n        The total doc.\n    \"\"\"\n",
     "zmod.py": "def gz(v: int = None, w: str = \"a\") -> int:\n    ...\n",
     "beta/__init__.py": "from ordpk.alpha import Thing\n\n\nclass Other:\n    pass\n",
     "beta/bmod.py": "def fb() -> int:\n    ...\n",
@@ -133,6 +133,11 @@ def main(v: Verdict) -> None:
                 # that working directory happens to hold configuration files of the type checker
                 (kw["cwd"] / "mypy.ini").write_text("[mypy]\nimplicit_optional = True\nstrict_optional = False\n")
                 (kw["cwd"] / "setup.cfg").write_text("[mypy]\nimplicit_optional = True\n")
+                # ... and another checkout of a package of the same name, with other documentation
+                import shutil
+                shutil.copytree(d, kw["cwd"] / d.name)
+                for f in (kw["cwd"] / d.name).rglob("*.py"):
+                    f.write_text(f.read_text().replace(" doc.", " text of the other checkout."))
             elif e["spelling"] == "rel":
                 kw["cwd"] = fresh_dir("cwd")
                 kw["out"] = kw["cwd"] / "out"
